@@ -11,8 +11,26 @@ import common
 DIR = os.path.join(common.VERIF, "scenarios")
 
 
+def stray_state_dir():
+    """a .redo in an ancestor of the temporary directory would be taken for the
+    base of every fresh scratch project (base selection walks up): the scenarios
+    would then measure somebody else's database, not the code"""
+    import tempfile
+    d = os.path.realpath(tempfile.gettempdir())
+    while True:
+        if os.path.isdir(os.path.join(d, ".redo")):
+            return os.path.join(d, ".redo")
+        if d == "/":
+            return None
+        d = os.path.dirname(d)
+
+
 def run(prop, bindir):
     out = {"evaluations": 0, "violations": [], "scenarios": []}
+    stray = stray_state_dir()
+    if stray:
+        out["skipped"] = "environment: a state directory exists at %s; fixed scenarios not run" % stray
+        return out
     index = json.load(open(os.path.join(DIR, "INDEX.json")))
     env = dict(os.environ)
     for k in list(env):
@@ -29,6 +47,9 @@ def run(prop, bindir):
         except subprocess.TimeoutExpired:
             rc, text = 124, "timeout"
         out["scenarios"].append({"script": sc["script"], "exit": rc})
+        if rc != 0 and stray_state_dir():
+            out["skipped"] = "environment: a state directory appeared above the temporary directory while %s ran" % sc["script"]
+            continue
         if rc != 0:
             out["violations"].append({"oracle": "fixed scenario: " + sc["title"], "script": "scenarios/" + sc["script"], "exit": rc,
                                       "output": text[-700:], "known_class": sc["known_class"],
